@@ -268,6 +268,8 @@ def run_shard(spec):
     for _ in range(1 if quick else 10):       # well-filled blocks in which ONE transaction breaks a value rule
         st.run_world(rng, cstream.C02_CROWDED, nblocks=rng.choice([30, 40]), ncand=14 if quick else 28, bad_key_prob=0.0)
     d.run(rng, 250 if quick else 6000)
+    if spec["shard"] % 4 == 1:
+        restart_lane(st, rng, 3 if quick else 40)
     if spec["shard"] % 4 == 0:
         node_lane(st, rng, 3 if quick else 40, 12)
     res = st.result()
@@ -279,6 +281,79 @@ def run_shard(spec):
     return res
 
 
+def restart_lane(st, rng, nworlds):
+    """conservation in the chain state a RESTARTED node rebuilds: trees in which sibling blocks spend the same outputs through
+    different transactions are written to a file-backed block store, the state is rebuilt from it by the repository's own
+    loader, and at every block of the rebuilt state the unspent total may exceed the parent's by at most the subsidy"""
+    import io
+    import os
+    import sys
+    import skepticoin.blockstore as bs
+    import skepticoin.scripts.utils as su
+    from skepticoin.blockstore import BlockStore
+    c = st.c
+    for j in range(nworlds):
+        world = gen.World(rng)
+        world.reuse_pending = False          # (a transaction shared by two stored blocks is C08's known finding)
+        world.grow(rng.choice([10, 16, 24]), rng, tx_prob=0.8, bias="mixed")
+        order = world.chain.order[1:]
+        path = os.path.join(os.getcwd(), "c02-restart-%d.db" % j)
+        for suffix in ("", "-journal"):
+            if os.path.exists(path + suffix):
+                os.remove(path + suffix)
+        out = sys.stdout
+        sys.stdout = io.StringIO()
+        try:
+            store = BlockStore(path)
+            try:
+                k = 0
+                while k < len(order):
+                    step = rng.choice([1, 2, 5, len(order)])
+                    for b in order[k:k + step]:
+                        store.add_block_to_buffer(world.real[b])
+                    store.flush_blocks_to_disk()
+                    k += step
+            except Exception:
+                store.close()
+                os.remove(path)
+                continue
+            store.close()
+            store = BlockStore(path)
+            old = bs.DefaultBlockStore.instance
+            bs.DefaultBlockStore.instance = store
+            try:
+                rebuilt = su.read_chain_from_disk()
+            finally:
+                bs.DefaultBlockStore.instance = old
+                store.close()
+        finally:
+            sys.stdout = out
+        os.remove(path)
+        c["restarts"] = c.get("restarts", 0) + 1
+        # blocks spent by different transactions on sibling branches
+        spent_by = {}
+        for b in order:
+            for t in world.chain.blocks[b].txs[1:]:
+                for r in t.refs():
+                    spent_by.setdefault(r, set()).add(t.id())
+        c["outputs_spent_differently_on_sibling_branches"] = c.get("outputs_spent_differently_on_sibling_branches", 0) + sum(
+            1 for v in spent_by.values() if len(v) > 1)
+        w = {"kind": "restart", "chain": gen.blocks_hex(world, order)}
+        for b in order:
+            rb = world.chain.blocks[b]
+            um = rebuilt.unspent_transaction_outs_by_hash.get(b)
+            pm = rebuilt.unspent_transaction_outs_by_hash.get(rb.prev)
+            if um is None or pm is None:
+                continue
+            c["conservation_checks_after_restart"] = c.get("conservation_checks_after_restart", 0) + 1
+            tot = sum(o.value for o in um.values())
+            ptot = sum(o.value for o in pm.values())
+            if tot > ptot + ref.subsidy(rb.height):
+                st.v("unspent-total-grew-beyond-subsidy-after-restart", "in the chain state rebuilt from the block store the unspent total "
+                     "after block h=%d is %d, after its parent %d, subsidy %d" % (rb.height, tot, ptot, ref.subsidy(rb.height)), w)
+                break
+
+
 def finalize(m, tier):
     c = m["counters"]
     floors = [("attempts", c.get("attempts", 0), 500),
@@ -286,7 +361,8 @@ def finalize(m, tier):
               ("well-filled blocks (12+ transactions)", sum(v for k, v in c.get("by_class", {}).items() if k.startswith("crowded:")), 30), ("conservation_checks", c.get("conservation_checks", 0), 200),
               ("direct by-itself calls", c.get("direct", {}).get("by_itself_calls", 0), 2000),
               ("direct reward calls", c.get("direct", {}).get("reward_calls", 0), 500),
-              ("node_lane_deliveries", c.get("node_lane_deliveries", 0), 60)]
+              ("node_lane_deliveries", c.get("node_lane_deliveries", 0), 60),
+              ("conservation_checks_after_restart", c.get("conservation_checks_after_restart", 0), 100)]
     for cls in cstream.C02_CLASSES:
         floors.append(("class " + cls, c.get("by_class", {}).get(cls, 0), 8))
     if c.get("ref_valid_but_rejected", 0):
